@@ -9,6 +9,8 @@ import (
 	"errors"
 	"fmt"
 	"iter"
+	"os"
+	"path/filepath"
 	"sort"
 	"strings"
 	"sync"
@@ -199,6 +201,15 @@ func runC06(c *ctx) {
 			if got99, _ := visibleIDs(env.Eng); got99[99] != 0 {
 				c.r.Add(Finding{Kind: "violation", Check: "rejected-batch-visible", Detail: "a row of the rejected (unmarshalable) batch became visible", Replay: replay})
 			}
+			if ackA != nil && !injectedFailure(log, "tombstone") {
+				var failedIDs []int
+				for _, row := range append(rowsA, rowsB...) {
+					failedIDs = append(failedIDs, row["_id"].(int))
+				}
+				if left := orphanRows(env, failedIDs); len(left) > 0 {
+					c.r.Add(Finding{Kind: "violation", Check: "ack-vs-visibility", Detail: fmt.Sprintf("the flush was acknowledged with an error and no TombstoneFile call was made to fail, yet the data store still holds a readable file with rows %v of the failed batches: served by a directory-scanning MetaStore (FileSystemDataStore) they are visible", left), Replay: replay})
+				}
+			}
 			if strings.Contains(gotCalls, "tombstone") != (mTomb == "1") {
 				c.r.Add(Finding{Kind: "disagreement", Check: "flush-tombstone", Detail: fmt.Sprintf("TombstoneFile called=%v, Lean protocol says %s", strings.Contains(gotCalls, "tombstone"), mTomb), Replay: replay})
 			}
@@ -212,8 +223,130 @@ func runC06(c *ctx) {
 		}
 	}
 	c06NilRow(c)
+	c06ShutdownFlush(c)
 	c.r.Exhaustive = true
 	c.r.Note("every single fault position of each flush shape enumerated; pairs: %s", map[bool]string{true: "all", false: "12 sampled per shape"}[c.tier == "thorough"])
+}
+
+// c06ShutdownFlush: the same single-fault enumeration for the flush that Stop's drain performs on still-buffered
+// batches, over stores that refuse a context that is already done (as network-backed stores do). A graceful Stop
+// gives the drain flush a live context for every store call, so the call sequence is the protocol's and an
+// error acknowledgement still means that nothing of the batch is visible to a fresh engine.
+func c06ShutdownFlush(c *ctx) {
+	for _, hasAbort := range []bool{true, false} {
+		blocks := 2
+		base := 1 + blocks + 7 + 2
+		for k := 0; k < base+2; k++ {
+			cfg := bs.DefaultBloomSearchEngineConfig()
+			cfg.PartitionFunc = partitionFunc("p")
+			cfg.MaxBufferedTime = time.Hour
+			cfg.RowDataCompression = bs.CompressionNone
+			env := NewEnv(cfg)
+			env.Data.noAbort = !hasAbort
+			env.Data.HonourCtx = true
+			if err := env.IngestWait([]map[string]any{{"_id": 1, "p": "z"}, {"_id": 2, "p": "z"}}); err != nil {
+				fatal("baseline ingest: %v", err)
+			}
+			env.Data.ResetLog()
+			env.Data.SetFaults([]string{"*"}, k+1)
+			rowsA := []map[string]any{{"_id": 11, "p": "p0"}, {"_id": 12, "p": "p1"}}
+			rowsB := []map[string]any{{"_id": 13, "p": "p0"}, {"_id": 14, "p": "p1"}}
+			dA, dB := make(chan error, 1), make(chan error, 1)
+			env.Eng.IngestRows(context.Background(), rowsA, dA)
+			env.Eng.IngestRows(context.Background(), rowsB, dB)
+			stopErr := env.Eng.Stop(context.Background())
+			var ackA, ackB error
+			got := 0
+			for got < 2 {
+				select {
+				case ackA = <-dA:
+					got++
+				case ackB = <-dB:
+					got++
+				case <-time.After(5 * time.Second):
+					got = 99
+				}
+			}
+			log := env.Data.Log()
+			env.Data.ClearFaults()
+			env.Data.HonourCtx = false
+			t := (&toks{}).add("flushp").n(blocks).add(b2s(hasAbort)).n(1).n(k)
+			resp := c.m.Ask(t.String())
+			parts := strings.SplitN(resp, " | ", 2)
+			gotCalls := strings.Join(opsOf(log, flushOps), " ")
+			refusedCalls := 0
+			for _, cl := range log {
+				if cl.N == -1 && cl.Err {
+					refusedCalls++
+				}
+			}
+			replay := map[string]any{"scenario": "flush performed by Stop's drain; stores refuse a done context", "blocks": blocks, "abort_capable_writer": hasAbort, "fault_position": k, "store_calls": gotCalls,
+				"ackA": fmt.Sprint(ackA), "ackB": fmt.Sprint(ackB), "stop": fmt.Sprint(stopErr), "model": resp, "calls_made_with_a_done_context": refusedCalls}
+			c.r.Case(true, fmt.Sprint("shutdown-flush", hasAbort, k))
+			c.r.Hit("flush.shutdown-drain")
+			if got == 99 {
+				c.r.Add(Finding{Kind: "violation", Check: "shutdown-flush-unanswered", Detail: "Stop returned but a batch drained by it was never acknowledged", Replay: replay})
+				continue
+			}
+			if gotCalls != parts[0] {
+				c.r.Add(Finding{Kind: "disagreement", Check: "flush-call-sequence", Detail: "store calls of the drain flush differ from the Lean flush protocol", Replay: replay})
+			}
+			want := map[int]int{1: 1, 2: 1}
+			if ackA == nil {
+				for _, id := range []int{11, 12, 13, 14} {
+					want[id] = 1
+				}
+			}
+			if (ackA == nil) != (ackB == nil) {
+				c.r.Add(Finding{Kind: "violation", Check: "flush-acks-disagree", Detail: "waiters of one flush received different verdicts", Replay: replay})
+			}
+			if ackA != nil && !injectedFailure(log, "tombstone") {
+				if left := orphanRows(env, []int{11, 12, 13, 14}); len(left) > 0 {
+					c.r.Add(Finding{Kind: "violation", Check: "ack-vs-visibility", Detail: fmt.Sprintf("drain flush during a graceful Stop was acknowledged with an error and no TombstoneFile call was made to fail, yet the data store still holds a readable file with rows %v of the failed batches (%d store calls were made with a context that was already done): served by a directory-scanning MetaStore (FileSystemDataStore) they are visible", left, refusedCalls), Replay: replay})
+				}
+			}
+			if gotV, qerr := visibleIDs(freshEngine(env)); fmt.Sprint(gotV) != fmt.Sprint(want) {
+				c.r.Add(Finding{Kind: "violation", Check: "ack-vs-visibility", Detail: fmt.Sprintf("drain flush during Stop: acknowledgement nil=%v but a fresh engine over the same stores sees ids %v (want %v, query err %v)", ackA == nil, gotV, want, qerr), Replay: replay})
+			}
+		}
+	}
+}
+
+// orphanRows: what a directory-scanning MetaStore (the shipped FileSystemDataStore used as both stores) would
+// serve from the files the data store still holds: the ids among `ids` that a fresh engine over those files returns.
+func orphanRows(env *Env, ids []int) []int {
+	dir, err := os.MkdirTemp("", "bsorph")
+	if err != nil {
+		fatal("tempdir: %v", err)
+	}
+	defer os.RemoveAll(dir)
+	for name, data := range env.Data.Published() {
+		if err := os.WriteFile(filepath.Join(dir, name+".dat"), data, 0o600); err != nil {
+			fatal("write: %v", err)
+		}
+	}
+	fsStore := bs.NewFileSystemDataStore(dir)
+	eng, err := bs.NewBloomSearchEngine(env.Cfg, fsStore, fsStore)
+	if err != nil {
+		fatal("engine: %v", err)
+	}
+	got, _ := visibleIDs(eng)
+	var out []int
+	for _, id := range ids {
+		if got[id] > 0 {
+			out = append(out, id)
+		}
+	}
+	return out
+}
+
+func injectedFailure(log []StoreCall, op string) bool {
+	for _, cl := range log {
+		if cl.Op == op && cl.Err && cl.N != -1 {
+			return true
+		}
+	}
+	return false
 }
 
 // c06NilRow: a nil map[string]any is a JSON-marshalable row ("null"). Whatever the engine decides about such
